@@ -243,6 +243,25 @@ def main(argv=None):
 def do_replay(mod, pid, path):
     rec = json.load(open(path))
     part = [p for p in mod.PARTS if p.name == rec["part"]]
+    if part and rec.get("raw_history") and rec.get("model") and hasattr(mod, "make_model"):
+        from .history import replay as replay_history
+        outs = []
+        for _ in range(2):
+            obs, vs = replay_history(mod.make_model(rec["model"]), rec["raw_history"])
+            outs.append(sorted(v["fingerprint"] for v in vs))
+        if outs[0] != outs[1]:
+            print("MACHINERY-ERROR nondeterministic replay of a history", outs)
+            return 2
+        print("history:", rec["history"])
+        print("observation:", str(obs)[:400])
+        if vs:
+            for v in vs:
+                print(f"VIOLATION property={pid} replay={path}")
+                print("  fingerprint:", v["fingerprint"])
+                print("  what:", v.get("what"))
+            return 1
+        print("no violation on replay")
+        return 0
     if not part or part[0].harness is None or rec.get("choices") is None:
         print("MACHINERY-ERROR cannot replay this record (custom part or no choices)")
         return 2
